@@ -424,7 +424,7 @@ func (c1 int64Const) representedBy(typ reflect.Type) (constant, error) {
 	case reflect.Float32, reflect.Complex64:
 		return float64Const(float32(c1)), nil
 	case reflect.Float64, reflect.Complex128:
-		return c1, nil
+		return float64Const(c1), nil
 	default:
 		return nil, errNotRepresentable
 	}
@@ -1263,6 +1263,18 @@ func toSameConstImpl(c1, c2 constant) (constant, constant) {
 	}
 	n2, n1 := toSameConstImpl(c2, c1)
 	return n1, n2
+}
+
+// asFloatingPoint returns c as a floating-point constant if c is represented
+// as an integer constant, otherwise it returns c.
+func asFloatingPoint(c constant) constant {
+	switch c := c.(type) {
+	case int64Const:
+		return newFloatConst(0).setInt64(int64(c))
+	case intConst:
+		return newFloatConst(0).setInt(c.i)
+	}
+	return c
 }
 
 var errNegativeShiftCount = errors.New("negative shift count")
